@@ -176,6 +176,7 @@ func genC04(r *rand.Rand, n int, emit func(string)) {
 		case 4:
 			rv = opb.B64E(opb.MHRaw(18, opb.RandBytes(r, pick(r, []int{32, 20, 0, 64}))))
 		}
-		emit(proto.Line("commit", M{"jwk": jwk, "code": code, "rv": rv, "label": label}))
+		emit(proto.Line("commit", M{"jwk": jwk, "code": code, "rv": rv, "label": label,
+			"twin_nonce": pick(r, []string{"", opb.B64E(opb.RandBytes(r, 16)), opb.B64E(opb.RandBytes(r, 16)), "AA"})}))
 	}
 }
